@@ -342,3 +342,56 @@ def check_scope_operands(ctx, rep, roots, rule=RULE + '.a'):
         fs.append(f)
     check_no_operand_mutation(ctx, rep, fs, rule=rule)
     return len(fs)
+
+
+def check_shared_entries(ctx, rep, funcs, rule=RULE + '.alias'):
+    """one mutable object stored under several keys: inside a loop a name is stored into a map entry / appended to a
+    list, the name is bound OUTSIDE that loop (so every iteration stores the same object), and entries of that container
+    are extended in place elsewhere (M[k] |= .., M[k].update(..), M[k].add(..)).  The in-place extension meant for one
+    key then shows up under all the keys that share the object.  Pattern rule: no floor."""
+    n = 0
+    for f in funcs:
+        loops_of = {}
+
+        def visit(node, stack):
+            for ch in ast.iter_child_nodes(node):
+                if isinstance(ch, (ast.FunctionDef, ast.Lambda)) and ch is not f.node:
+                    continue
+                if isinstance(ch, ast.stmt):
+                    loops_of[id(ch)] = list(stack)
+                if isinstance(ch, (ast.For, ast.While)):
+                    visit(ch, stack + [ch])
+                else:
+                    visit(ch, stack)
+        visit(f.node, [])
+        stmts = [s for s in walk_no_nested(f.node) if isinstance(s, ast.stmt)]
+        # containers whose entries are extended in place
+        inplace = set()
+        for s in stmts:
+            if isinstance(s, ast.AugAssign) and isinstance(s.target, ast.Subscript) and isinstance(s.target.value, ast.Name) and isinstance(s.op, (ast.BitOr, ast.Add, ast.BitAnd, ast.Sub)):
+                inplace.add(s.target.value.id)
+            if isinstance(s, ast.Expr) and isinstance(s.value, ast.Call) and isinstance(s.value.func, ast.Attribute) and s.value.func.attr in ('add', 'update', 'append', 'extend', 'discard', 'remove') \
+                    and isinstance(s.value.func.value, ast.Subscript) and isinstance(s.value.func.value.value, ast.Name):
+                inplace.add(s.value.func.value.value.id)
+        if not inplace:
+            continue
+        for s in stmts:
+            if not (isinstance(s, ast.Assign) and len(s.targets) == 1 and isinstance(s.targets[0], ast.Subscript) and isinstance(s.targets[0].value, ast.Name)
+                    and s.targets[0].value.id in inplace and isinstance(s.value, ast.Name)):
+                continue
+            X = s.value.id
+            binds = [b for b in stmts if isinstance(b, (ast.Assign, ast.AnnAssign)) and any(isinstance(t, ast.Name) and t.id == X for t in (b.targets if isinstance(b, ast.Assign) else [b.target]))]
+            if len(binds) != 1 or binds[0].value is None:
+                continue
+            v = binds[0].value
+            mutable = isinstance(v, (ast.Set, ast.List, ast.Dict, ast.SetComp, ast.ListComp, ast.DictComp)) or \
+                (isinstance(v, ast.Call) and isinstance(v.func, ast.Name) and v.func.id in ('set', 'list', 'dict', 'defaultdict'))
+            if not mutable:
+                continue
+            ls, lb = loops_of.get(id(s), []), loops_of.get(id(binds[0]), [])
+            if not ls or ls[-1] in lb:
+                continue
+            n += 1
+            rep.violates(rule, f, s, 'the object `{0}` (bound once per round of an outer loop) is stored under several keys of `{1}` by the loop over `{2}`, and entries of `{1}` are extended in place elsewhere: an extension meant for one key '
+                         'appears under every key that shares the object (store a copy: set({0}))'.format(X, s.targets[0].value.id, u(ls[-1].target) if isinstance(ls[-1], ast.For) else 'the loop'))
+    return n
